@@ -79,20 +79,25 @@ func mergeExistingSnapshot(ctx context.Context, endpoints []string, next metadat
 	if err != nil || len(existing.Topics) == 0 {
 		return next
 	}
-	seen := make(map[string]struct{}, len(next.Topics))
-	for _, topic := range next.Topics {
+	seen := make(map[string]int, len(next.Topics))
+	for i, topic := range next.Topics {
 		name := *topic.Topic
 		if name == "" {
 			continue
 		}
-		seen[name] = struct{}{}
+		seen[name] = i
 	}
 	for _, topic := range existing.Topics {
 		name := *topic.Topic
 		if name == "" || topic.ErrorCode != 0 {
 			continue
 		}
-		if _, ok := seen[name]; ok {
+		if i, ok := seen[name]; ok {
+			// Partition counts only grow: brokers may have acknowledged an
+			// increase that the topic resource does not reflect (yet).
+			if len(topic.Partitions) > len(next.Topics[i].Partitions) {
+				next.Topics[i] = topic
+			}
 			continue
 		}
 		next.Topics = append(next.Topics, topic)
@@ -292,20 +297,25 @@ func mergeSnapshots(next, existing metadata.ClusterMetadata) metadata.ClusterMet
 	if len(existing.Topics) == 0 {
 		return next
 	}
-	seen := make(map[string]struct{}, len(next.Topics))
-	for _, topic := range next.Topics {
+	seen := make(map[string]int, len(next.Topics))
+	for i, topic := range next.Topics {
 		name := *topic.Topic
 		if name == "" {
 			continue
 		}
-		seen[name] = struct{}{}
+		seen[name] = i
 	}
 	for _, topic := range existing.Topics {
 		name := *topic.Topic
 		if name == "" || topic.ErrorCode != 0 {
 			continue
 		}
-		if _, ok := seen[name]; ok {
+		if i, ok := seen[name]; ok {
+			// Partition counts only grow: brokers may have acknowledged an
+			// increase that the topic resource does not reflect (yet).
+			if len(topic.Partitions) > len(next.Topics[i].Partitions) {
+				next.Topics[i] = topic
+			}
 			continue
 		}
 		next.Topics = append(next.Topics, topic)
